@@ -102,7 +102,7 @@ CLAIMS['C20'] = dict(level='other', technique='sibling table agreement on syntax
     ref='§5 / §11.7 C20')
 
 CLAIMS['C16'] = dict(level='other', technique='flow analysis on MIR: call-graph fixpoint for "may return ParentElementLocked" (variant built, or Result of such a callee propagated by ?), intersected with the (mutation, Err exit) pairs of the validate-before-mutate analysis',
-    text='Decides ONLY the exception clause of the property: an operation that fails with the documented parent-locked error has had no effect, i.e. in no public-reachable function does a CFG path lead from a mutation of model state to an exit that can carry ParentElementLocked. Plus one atomicity clause: get_or_create_sub_element / get_or_create_named_sub_element look for the existing sub element and create it under ONE write guard (C16-MUST-atomic). Serializability of concurrent interleavings (results and final state equal to some sequential order) is NOT decided: it quantifies over schedules and compares with sequential runs, and the only static route (two-phase / reduction analysis) rejects essentially every public operation of the present design.',
+    text='Decides ONLY the exception clause of the property: an operation that fails with the documented parent-locked error has had no effect, i.e. in no public-reachable function does a CFG path lead from a mutation of model state to an exit that can carry ParentElementLocked. Plus three narrow atomicity / exclusion clauses: get_or_create_sub_element / get_or_create_named_sub_element look for the existing sub element and create it under ONE write guard, create_file checks the name and adds the file under one guard (C16-MUST-atomic), and every call from an Element:: method to a may-mutate ElementRaw:: method goes through a write-family guard (C16-MUST-exclusive). Serializability of concurrent interleavings (results and final state equal to some sequential order) is NOT decided: it quantifies over schedules and compares with sequential runs, and the only static route (two-phase / reduction analysis) rejects essentially every public operation of the present design.',
     note='Narrow clause of a property that is otherwise not applicable; one defect found by it was repaired (SHORT-NAME edit), one is a known finding.',
     ref='§5 / §11.8 C16')
 
